@@ -440,7 +440,6 @@ func (p *Path) Assert(c *sym.Term, id string) {
 	replaying := p.pos < len(p.prefix)
 	if replaying {
 		// already discharged by the path that created this prefix
-		p.assertPC(c)
 		return
 	}
 	ex := p.Ex
@@ -468,19 +467,13 @@ func (p *Path) Assert(c *sym.Term, id string) {
 	ex.resMu.Unlock()
 	if res == solver.Sat {
 		p.emitVector(m, "violation", id, true)
-		if c.IsFalse() {
-			panic(&PathEnd{"assert-false"})
-		}
+		// the path continues without assuming the assertion, so that later obligations
+		// are still checked on the inputs that violate this one (no masking)
+		return
 	}
-	// continue under the assumption that the assertion holds
-	if p.eval(c) != 1 {
-		r, m2 := p.query(c, true)
-		if r != solver.Sat {
-			panic(&PathEnd{"assert-always-fails"})
-		}
-		p.setModel(m2)
+	if res == solver.Unsat {
+		p.assertPC(c) // implied by pc: recorded to help syntactic pruning
 	}
-	p.assertPC(c)
 }
 
 // Confirm is a reachability query for a known finding: is c satisfiable here?
